@@ -1,7 +1,7 @@
-(* C32 obligation: is_nth_residue(a, 0, m) divides by the exponent *)
+(* C32 obligation: is_nth_residue(a, 0, m) divides by the exponent inside the multiprecision layer (SIGFPE) *)
 From SE Require Import C32.NtSpec C32.NtProofsMisc.
 Local Open Scope Z_scope.
 Theorem C32_is_nth_residue_zero_exponent_refuted :
-  nt_is_nth_residue 2 0 4 = ErrExn EXN_DIVZERO.
+  nt_is_nth_residue 2 0 4 = ErrExn EXN_FPE.
 Proof. exact is_nth_residue_zero_exponent_crash. Qed.
 Print Assumptions C32_is_nth_residue_zero_exponent_refuted.
